@@ -1,8 +1,13 @@
 --------------------------- MODULE MatrixContract ---------------------------
 (***************************************************************************)
 (* Level A (contract) for property C17: the storage-independent meaning    *)
-(* of a square Matrix is a dense function (i,j) -> Int, represented as an  *)
-(* n x n sequence of sequences (1-based: d[i+1][j+1] is entry (i,j)).      *)
+(* of a square Matrix is a dense function (i,j) -> number, represented as  *)
+(* an n x n sequence of sequences (1-based: d[i+1][j+1] is entry (i,j)).   *)
+(* The numbers are the graded floating-point values of Graded.tla (small   *)
+(* integers, and m * 2^(80e): tiny and huge values, carried as integer     *)
+(* codes); "the same operation on the dense equivalents" is the entrywise  *)
+(* IEEE operation, which GAdd / GSub / GMul give exactly.  In particular   *)
+(* a scalar counts as zero only if it IS zero: 0 + TINY = TINY.            *)
 (*                                                                         *)
 (* Nothing in this module mentions `data`, the band index map or the       *)
 (* [1,0] backing of Identity.  The only storage facts used are the ones    *)
@@ -13,7 +18,7 @@
 (* (MC_Matrix: Level B => contract) and (b) by TLC on the values the real  *)
 (* code returned (Trace_Matrix); only (b) can produce a VIOLATION.         *)
 (***************************************************************************)
-EXTENDS Integers, Sequences
+EXTENDS Integers, Sequences, Graded
 
 DenseOf(n, F(_, _)) == [i \in 1..n |-> [j \in 1..n |-> F(i - 1, j - 1)]]
 ZeroD(n) == [i \in 1..n |-> [j \in 1..n |-> 0]]
@@ -54,13 +59,13 @@ WritesMeaning(d, ws, k) == IF k > Len(ws) THEN d
 
 BinMeaning(op, da, db) ==
   [i \in 1..Len(da) |-> [j \in 1..Len(da) |->
-     IF op \in {"add", "add_assign"} THEN da[i][j] + db[i][j] ELSE da[i][j] - db[i][j]]]
+     IF op \in {"add", "add_assign"} THEN GAdd(da[i][j], db[i][j]) ELSE GSub(da[i][j], db[i][j])]]
 
 ScalarMeaning(op, d, s) ==
   [i \in 1..Len(d) |-> [j \in 1..Len(d) |->
-     CASE op = "component_add" -> d[i][j] + s
-       [] op = "component_sub" -> d[i][j] - s
-       [] op \in {"component_mul", "component_mul_mut"} -> d[i][j] * s]]
+     CASE op = "component_add" -> GAdd(d[i][j], s)
+       [] op = "component_sub" -> GSub(d[i][j], s)
+       [] op \in {"component_mul", "component_mul_mut"} -> GMul(d[i][j], s)]]
 
 (* ---- C17 clauses (obs* = what an implementation returned) -------------- *)
 \* every public constructor yields a matrix all of whose entries can be read, with the constructor's meaning
